@@ -40,7 +40,7 @@ CHECKS = {
          "configurations without documented random options; ConvexInit.tla abstracts projected coordinate steps to their own axis", "5 C19 and 0.2"),
  "C05": ("exploration", "Problems.tla KKT-pattern enumeration -> constructed optimum -> validated solver trace with final optimality clause",
          "TLC enumerates every KKT pattern (free / at lower / at upper per coordinate x shape x x0 placement x scaling x point count x conditioning); instances are built so that the optimality conditions hold by construction at a known x*; the real solver (default budget) runs under the recorder, the trace is validated against DfolsTrace.tla and the final clauses require feasibility, the success flag and obj - f* <= 1e-6(1+f*). TLA+ does not decide convergence: exploration level.",
-         "patterns enumerated for n <= 3 (quick) / 4 (thorough), dimensions 8-13 sampled; cond <= 1e3; optimum known by construction; one known finding (linear-algebra exit at the optimum with many active bounds)", "5 C05 and 2.4"),
+         "patterns enumerated for n <= 3 (quick) / 4 (thorough), dimensions 8-13 sampled, face classes (start on the active face, warm start) at dimensions 4-6; cond <= 1e3; optimum known by construction; one known finding (linear-algebra exit at the optimum with many active bounds)", "5 C05 and 2.4"),
  "C06": ("exploration", "Problems.tla subgradient-pattern enumeration -> constructed regularised optimum -> validated solver trace",
          "As C05 for l1 / l2-norm regularisers (positive / negative / zero-strict / zero-at-kink / bound-active patterns), lambda over 3 decades, argsh/argsprox pass-through checked; final clauses: objective within 1e-3(1+F*), success flag.",
          "n <= 3, cond <= 1e2; the success-flag clause has one known finding (slow-progress warning at the optimum)", "5 C06 and 2.4"),
@@ -49,7 +49,7 @@ CHECKS = {
          "key table transcribed once into the specification; None values are not a class", "5 C07"),
  "C12": ("exploration", "Kernels.tla class-pattern enumeration -> concretised trsbox calls -> contract clauses in the trace specification (+ every in-solver call)",
          "Exhaustive class patterns (position of each coordinate w.r.t. its bounds x gradient sign x Hessian kind) for n <= 2/3, sampled to n = 8, several scalings each; contract classes (box, norm, model decrease, Cauchy decrease, gradient identity) computed in binary64 by the harness and evaluated by DfolsTrace.tla; the same clauses judge every trsbox call observed inside recorded solver runs.",
-         "explored domain |xopt| <= 100*delta; clauses allow for the rounding of d = (xopt+d)-xopt only", "5 C12"),
+         "explored domain |xopt| <= 100*delta; clauses allow for the rounding of d = (xopt+d)-xopt only; in-solver calls judged inside the scale domain 1e-8 <= |g|, delta <= 1e8, |H|*delta <= 1e8*|g|", "5 C12"),
  "C13": ("exploration", "Kernels.tla class patterns -> trsbox_geometry / ctrsbox_* calls and in-solver regularised steps -> contract clauses",
          "As C12 for the geometry solver (box to 1e-12, ball, global maximum against a bisection oracle, never worse than the zero step), the convex step kernels (norm bound) and the regularised step handed to the main loop (predicted reduction recomputed with the code's formula, observed in real regularised runs with bounds and with projections).",
          "gradient components 0 or >= 1e-10", "5 C13"),
@@ -61,7 +61,7 @@ CHECKS = {
          "harness's own exact projectors", "5 C15"),
  "C16": ("model_checking", "ModelMC.tla factorisation-flag invariant + identity classes on random interleavings of the real Model validated by the trace specification",
          "Flag logic model-checked exhaustively; interpolation / normal-equation / Lagrange / base-shift / cached-QR identities evaluated by the driver with a conditioning-scaled tolerance after random interleavings of replacement, shifts and re-fits; flags predicted by the DfolsModel operators at every call.",
-         "tolerance 1e3*eps*cond*(1+|points|/spread)", "5 C16"),
+         "tolerance 1e3*eps*cond*(1+|points|/spread); unbounded and finite tight boxes; the interpolation point of an identity is the point the driver evaluated (its own record)", "5 C16"),
  "C17": ("model_checking", "ModelMC.tla exhaustive + R-Model replay of TLC behaviours on the real Model (exact) + random-sequence trace validation",
          "All operation sequences to the depth bound over values with ties/NaN/+Inf are model-checked; TLC simulation behaviours (depth 12 and 50) are stepped through the real Model with exact comparison of the full projected state, with and without a regulariser; random sequences on the real Model are validated against the same operators.",
          "exact replay needs <= 2 samples per slot", "5 C17"),
